@@ -1582,3 +1582,116 @@ Proof.
   - assert (Hs7 : setp ps1 7 [47; 46] = ps1) by (rewrite <- Hold, <- H7; apply setp_same; lia).
     rewrite Hs7. reflexivity.
 Qed.
+
+(* the whole pathname setter: any sequence of "append a segment", "append the empty segment", "shorten" - what
+   path_start_state / path_state do with state override - followed by commit_path *)
+Inductive pop := PPush (x : str) | PEmpty | PShorten.
+Definition cops (o : pop) : list sop :=
+  match o with
+  | PPush x => [OStartPathSeg; OAppend x; OSavePathSeg]
+  | PEmpty => [OAppendEmptySeg]
+  | PShorten => [OShortenPath]
+  end.
+Definition pinterp (file : bool) (segs : list str) (o : pop) : list str :=
+  match o with
+  | PPush x => segs ++ [x]
+  | PEmpty => segs ++ [[]]
+  | PShorten => shorten_segs file segs
+  end.
+
+Lemma path_push_empty s segs : PI s segs ->
+  let s1 := do_append_empty_path_segment true s in
+  PI s1 (segs ++ [[]]) /\ s_r s1 = s_r s /\ s_file s1 = s_file s.
+Proof.
+  destruct s as [r fl la us st pse cu tg]. unfold PI. cbn [s_strp s_pse]. intros [Hs Hp]. subst st pse.
+  unfold do_append_empty_path_segment, v_save_path_segment, v_start_path_segment, w_tgt, w_strp, w_pse.
+  cbn [s_r s_file s_last s_use s_strp s_pse s_curr s_tgt]. repeat split.
+  - rewrite pstr_snoc. reflexivity.
+  - rewrite pends_snoc, pstr_snoc. reflexivity.
+Qed.
+
+Lemma run_app setter s a b : run setter s (a ++ b) = run setter (run setter s a) b.
+Proof. unfold run. apply fold_left_app. Qed.
+
+Lemma path_ops_run : forall l s segs, PI s segs ->
+  let s' := run true s (flat_map cops l) in
+  PI s' (fold_left (pinterp (s_file s)) l segs) /\ s_r s' = s_r s /\ s_file s' = s_file s.
+Proof.
+  induction l as [|o l IH]; intros s segs HPI.
+  - cbn. split; [exact HPI|split; reflexivity].
+  - cbn [flat_map fold_left]. rewrite run_app.
+    assert (Hstep : PI (run true s (cops o)) (pinterp (s_file s) segs o) /\ s_r (run true s (cops o)) = s_r s /\
+                    s_file (run true s (cops o)) = s_file s).
+    { destruct o as [x| |]; cbn [cops run fold_left step pinterp].
+      - exact (path_push s segs x HPI).
+      - exact (path_push_empty s segs HPI).
+      - exact (path_shorten s segs HPI). }
+    destruct Hstep as [H1 [H2 H3]].
+    specialize (IH (run true s (cops o)) (pinterp (s_file s) segs o) H1). cbv zeta in IH.
+    rewrite H3 in IH. destruct IH as [I1 [I2 I3]]. split; [exact I1|split; congruence].
+Qed.
+
+Theorem pathname_conc ps n f c file l :
+  PW ps n -> (nth P_PATH_PREFIX ps [] = [] \/ nth P_PATH_PREFIX ps [] = [47; 46]) ->
+  let segs := fold_left (pinterp file) l [] in
+  s_r (run true (init_sst (conc ps n f c) file) (flat_map cops l ++ [OCommitPath])) =
+  conc (setp (setp ps P_PATH (pstr segs)) P_PATH_PREFIX (new_prefix f segs)) (Nat.max n 9) f (N.of_nat (length segs)).
+Proof.
+  intros HPW Hpre. cbv zeta. rewrite run_app.
+  assert (HPI0 : PI (init_sst (conc ps n f c) file) []) by (split; reflexivity).
+  destruct (path_ops_run l (init_sst (conc ps n f c) file) [] HPI0) as [H1 [H2 H3]]. cbn [init_sst s_file s_r] in *.
+  cbn [run fold_left step].
+  apply (commit_path_conc ps n f c); assumption.
+Qed.
+
+(* record level: the pathname setter's operation sequence gives the representation of the record with the new path *)
+Definition no_lead_slash (segs : list str) : Prop :=
+  match segs with (47 :: _) :: _ => False | _ => True end.
+
+Lemma pstr_flat_map segs : flat_map (fun seg => 47 :: seg) segs = pstr segs.
+Proof. unfold pstr. apply flat_map_concat_map. Qed.
+
+Lemma path_prefix_new u segs : no_lead_slash segs ->
+  path_prefix (set_path u (PList segs)) = new_prefix (flags_of u) segs.
+Proof.
+  intro Hns. unfold new_prefix.
+  change (N.testbit (flags_of u) 5) with (bit_ (repr_of u) 5). rewrite bit5.
+  unfold path_prefix, set_path. cbn [uhost path].
+  destruct (uhost u); cbn [is_some negb andb]; [reflexivity|].
+  destruct segs as [|p0 [|p1 rest]].
+  - reflexivity.
+  - reflexivity.
+  - assert (H1 : (1 <? N.of_nat (length (p0 :: p1 :: rest))) = true).
+    { apply N.ltb_lt. cbn [length]. lia. }
+    rewrite H1. destruct p0 as [|a p0'].
+    + cbn [str_eqb]. unfold pstr. cbn [map concat app]. reflexivity.
+    + cbn [str_eqb]. unfold pstr. cbn [map concat app]. cbn [no_lead_slash] in Hns.
+      destruct (N.eqb_spec a 47) as [->|Hne]; [contradiction|]. change (47 =? 47) with true. cbn [andb]. reflexivity.
+Qed.
+
+Lemma pieces_set_path u segs : no_lead_slash segs ->
+  pieces (set_path u (PList segs)) =
+  setp (setp (pieces u) P_PATH (pstr segs)) P_PATH_PREFIX (new_prefix (flags_of u) segs).
+Proof.
+  intro Hns. rewrite <- (path_prefix_new u segs Hns).
+  unfold pieces at 1. unfold path_serialize at 1. cbn [set_path scheme username password uhost port path query fragment].
+  rewrite pstr_flat_map. unfold includes_credentials. cbn [username password]. reflexivity.
+Qed.
+
+Lemma flags_set_path u segs : has_opaque_path u = false -> flags_of (set_path u (PList segs)) = flags_of u.
+Proof.
+  unfold flags_of, set_path, has_opaque_path. cbn [uhost port query fragment path]. destruct (path u); [discriminate|reflexivity].
+Qed.
+
+Theorem pathname_setter_repr u file l : scheme u <> [] -> has_opaque_path u = false ->
+  let segs := fold_left (pinterp file) l [] in
+  no_lead_slash segs ->
+  s_r (run true (init_sst (repr_of u) file) (flat_map cops l ++ [OCommitPath])) = repr_of (set_path u (PList segs)).
+Proof.
+  intros Hs Hop segs Hns. rewrite repr_of_conc.
+  rewrite (pathname_conc (pieces u) 11 (flags_of u) (segs_of u) file l (pieces_PW u Hs)).
+  - fold segs. rewrite repr_of_conc, (pieces_set_path u segs Hns), (flags_set_path u segs Hop). reflexivity.
+  - unfold pieces, P_PATH_PREFIX. cbn [nth]. unfold path_prefix.
+    destruct (uhost u); [left; reflexivity|]. destruct (path u) as [|[|p0 [|p1 r]]]; try (left; reflexivity).
+    destruct (str_eqb p0 []); [right|left]; reflexivity.
+Qed.
